@@ -639,11 +639,7 @@ func (c *Ctx) Composite(t *rapid.T, kind model.Kind, depth int) *model.Node {
 		if objs == 0 && c.P.avoid("anyof.non_object_branches_with_format_array") {
 			// known finding: the import of the items' format type is left unused
 			for _, b := range n.Branches {
-				model.Walk(b, func(x *model.Node) {
-					if x.Kind == model.KArray && x.Items != nil {
-						model.Walk(x.Items, func(y *model.Node) { y.Format = "" })
-					}
-				})
+				model.Walk(b, func(x *model.Node) { x.Format = "" })
 			}
 		}
 	}
